@@ -40,8 +40,9 @@ type Expr struct {
 	L *Expr  `json:"l,omitempty"` // and/or: left; paren: inner
 	R *Expr  `json:"r,omitempty"`
 	K string `json:"k,omitempty"` // atom: tag key
-	O string `json:"o,omitempty"` // eq neq re nre
+	O string `json:"o,omitempty"` // eq neq re nre in notin
 	V string `json:"v,omitempty"` // eq/neq: literal value; re/nre: pattern
+	Vs []string `json:"vs,omitempty"` // in/notin: the set (select path only; the show-series path does not implement IN)
 }
 
 type Op struct {
@@ -57,6 +58,10 @@ type Op struct {
 	Series []SeriesOut         `json:"series,omitempty"` // every listed series (one entry per id)
 	Values map[string][]string `json:"values,omitempty"` // tag key -> sorted distinct values
 	Keys   []string            `json:"keys,omitempty"`   // tag keys seen in the listing
+	// clist: listings with a condition and cardinalities
+	Card   uint64            `json:"card"`             // SeriesCardinality(mst, expr)
+	VCard  map[string]uint64 `json:"vcard,omitempty"`  // SearchTagValuesCardinality(mst, key)
+	Only2  bool              `json:"only2,omitempty"`  // query: the predicate has IN / NOT IN atoms, only the select path is observed
 }
 
 type SeriesOut struct {
@@ -172,6 +177,16 @@ func toInflux(x *Expr) influxql.Expr {
 		return &influxql.BinaryExpr{Op: influxql.EQREGEX, LHS: ref, RHS: &influxql.RegexLiteral{Val: regexp.MustCompile(x.V)}}
 	case "nre":
 		return &influxql.BinaryExpr{Op: influxql.NEQREGEX, LHS: ref, RHS: &influxql.RegexLiteral{Val: regexp.MustCompile(x.V)}}
+	case "in", "notin":
+		set := map[interface{}]bool{}
+		for _, v := range x.Vs {
+			set[v] = true
+		}
+		op := influxql.IN
+		if x.O == "notin" {
+			op = influxql.NOTIN
+		}
+		return &influxql.BinaryExpr{Op: influxql.Token(op), LHS: ref, RHS: &influxql.SetLiteral{Vals: set}}
 	}
 	panic("bad expr")
 }
@@ -336,6 +351,14 @@ func eval(x *Expr, tags map[string]string, m func(p, v string) bool) bool {
 		return m(x.V, v)
 	case "nre":
 		return !m(x.V, v)
+	case "in", "notin":
+		in := false
+		for _, w := range x.Vs {
+			if w == v {
+				in = true
+			}
+		}
+		return in == (x.O == "in")
 	}
 	panic("bad atom")
 }
@@ -412,10 +435,26 @@ func (g *genState) genTags() [][2]string {
 	return t
 }
 
+// perlMode: the store runs with enable-perl-regrep = true (second configuration). What a regular expression means in that
+// mode is not specified, so cases carry no regex atoms there; the pattern x value matrix is recorded for the evidence only.
+var perlMode = false
+
 func (g *genState) genAtom(mst string) *Expr {
 	k := gen.Pick(g.r, tagKeys[:3+g.r.Intn(len(tagKeys)-2)])
 	a := &Expr{T: "atom", K: k}
-	switch g.r.Intn(10) {
+	pick := g.r.Intn(11)
+	if perlMode && pick >= 5 && pick <= 9 {
+		pick = g.r.Intn(5)
+	}
+	switch pick {
+	case 10:
+		a.O = "in"
+		if g.r.Bool() {
+			a.O = "notin"
+		}
+		for n := 1 + g.r.Intn(3); n > 0; n-- {
+			a.Vs = append(a.Vs, gen.Pick(g.r, vals))
+		}
 	case 0, 1, 2:
 		a.O, a.V = "eq", gen.Pick(g.r, vals)
 	case 3, 4:
@@ -426,6 +465,13 @@ func (g *genState) genAtom(mst string) *Expr {
 		a.O, a.V = "nre", gen.Pick(g.r, pats)
 	}
 	// bias literal values towards ones stored under that key
+	if (a.O == "in" || a.O == "notin") && g.r.Chance(2, 3) {
+		for _, s := range g.series {
+			if v, ok := s.tags[k]; ok && s.mst == mst && g.r.Chance(1, 2) {
+				a.Vs[0] = v
+			}
+		}
+	}
 	if (a.O == "eq" || a.O == "neq") && g.r.Chance(2, 3) {
 		var have []string
 		for _, s := range g.series {
@@ -506,11 +552,25 @@ func (rn *runner) brute(mst string, x *Expr, m func(p, v string) bool) []uint64 
 	return sortedU(ids)
 }
 
+func hasIn(x *Expr) bool {
+	found := false
+	atomsOf(x, func(a *Expr) {
+		if a.O == "in" || a.O == "notin" {
+			found = true
+		}
+	})
+	return found
+}
+
 func (rn *runner) doQuery(mst string, x *Expr) {
 	opi := len(rn.c.Ops)
-	ids := rn.e.queryIDs(mst, x)
+	only2 := hasIn(x)
+	var ids []uint64
+	if !only2 {
+		ids = rn.e.queryIDs(mst, x)
+	}
 	ids2 := rn.e.queryOpts(mst, x)
-	rn.c.Ops = append(rn.c.Ops, Op{Op: "query", Mst: mst, Expr: x, IDs: ids, IDs2: ids2})
+	rn.c.Ops = append(rn.c.Ops, Op{Op: "query", Mst: mst, Expr: x, IDs: ids, IDs2: ids2, Only2: only2})
 	atomsOf(x, func(a *Expr) {
 		if a.O == "re" || a.O == "nre" {
 			rn.pats[a.V] = true
@@ -521,7 +581,7 @@ func (rn *runner) doQuery(mst string, x *Expr) {
 		rn.c.Nontriv = true
 	}
 	for pi, got := range [][]uint64{ids, ids2} {
-		if eqU(got, want) {
+		if eqU(got, want) || (pi == 0 && only2) {
 			continue
 		}
 		f := Fail{Kind: "search-not-bruteforce", Op: opi, Path: pi + 1, Got: got, Want: want,
@@ -584,6 +644,149 @@ func (rn *runner) doList(mst string) {
 			rn.fail("listing-values", opi, fmt.Sprintf("tag values of %q listed %q, written %q", k, values[k], wv))
 		}
 	}
+}
+
+// render: the text SearchSeriesKeys gives for a series key (measurement,k=v,... without any escaping)
+func render(mst string, tags [][2]string) string {
+	var sb strings.Builder
+	sb.WriteString(mst)
+	for _, t := range tags {
+		sb.WriteByte(',')
+		sb.WriteString(t[0])
+		sb.WriteByte('=')
+		sb.WriteString(t[1])
+	}
+	return sb.String()
+}
+
+func sortedTags(m map[string]string) [][2]string {
+	var t [][2]string
+	for k, v := range m {
+		t = append(t, [2]string{k, v})
+	}
+	sort.Slice(t, func(i, j int) bool { return t[i][0] < t[j][0] })
+	return t
+}
+
+// doCondList: SHOW SERIES ... WHERE (SearchSeriesKeys), SHOW TAG VALUES ... WHERE (SearchTagValues with a condition),
+// SHOW SERIES CARDINALITY [WHERE] (SeriesCardinality), SHOW TAG VALUES CARDINALITY (SearchTagValuesCardinality)
+func (rn *runner) doCondList(mst string, x *Expr) {
+	opi := len(rn.c.Ops)
+	var cond influxql.Expr
+	if x != nil {
+		cond = toInflux(x)
+	}
+	atomsOf(x, func(a *Expr) {
+		if a.O == "re" || a.O == "nre" {
+			rn.pats[a.V] = true
+		}
+	})
+	// expectations
+	var sel []*ser
+	keysWritten := map[string]bool{}
+	allVals := map[string]map[string]bool{}
+	for _, s := range rn.g.series {
+		if s.mst != mst {
+			continue
+		}
+		for k, v := range s.tags {
+			keysWritten[k] = true
+			if allVals[k] == nil {
+				allVals[k] = map[string]bool{}
+			}
+			allVals[k][v] = true
+		}
+		if x == nil || eval(x, s.tags, matchU) {
+			sel = append(sel, s)
+		}
+	}
+	var keys []string
+	for k := range keysWritten {
+		keys = append(keys, k)
+	}
+	for _, k := range tagKeys {
+		if !keysWritten[k] {
+			keys = append(keys, k)
+			break
+		}
+	}
+	sort.Strings(keys)
+	op := Op{Op: "clist", Mst: mst, Expr: x, Values: map[string][]string{}, VCard: map[string]uint64{}}
+	// cardinality
+	card, err := rn.e.idx.SeriesCardinality([]byte(mst), cond, tsi.DefaultTR)
+	must(err)
+	op.Card = card
+	if int(card) != len(sel) {
+		rn.fail("cardinality", opi, fmt.Sprintf("series cardinality %d, %d written series satisfy the predicate", card, len(sel)))
+	}
+	// series keys
+	got, err := rn.e.idx.SearchSeriesKeys(nil, []byte(mst), cond)
+	must(err)
+	var gotS, wantS []string
+	byRender := map[string][]*ser{}
+	for _, s := range rn.g.series {
+		if s.mst == mst {
+			r := render(s.mst, sortedTags(s.tags))
+			byRender[r] = append(byRender[r], s)
+		}
+	}
+	for _, b := range got {
+		r := string(b)
+		gotS = append(gotS, r)
+		if l := byRender[r]; len(l) > 0 { // resolve the text to a written series (texts are not injective: no escaping)
+			op.Series = append(op.Series, SeriesOut{Mst: l[0].mst, Tags: sortedTags(l[0].tags)})
+			byRender[r] = l[1:]
+		} else {
+			op.Series = append(op.Series, SeriesOut{Bad: "unknown series text " + strconv.Quote(r)})
+		}
+	}
+	for _, s := range sel {
+		wantS = append(wantS, render(s.mst, sortedTags(s.tags)))
+	}
+	sort.Strings(gotS)
+	sort.Strings(wantS)
+	if strings.Join(gotS, "\x03") != strings.Join(wantS, "\x03") {
+		rn.fail("listing-cond-series", opi, fmt.Sprintf("series listing with condition %q, written and satisfying %q", gotS, wantS))
+	}
+	// tag values with condition, tag value cardinality
+	if len(keys) > 0 {
+		var bk [][]byte
+		for _, k := range keys {
+			bk = append(bk, []byte(k))
+		}
+		res, err := rn.e.idx.SearchTagValues([]byte(mst), bk, cond)
+		must(err)
+		for i, k := range keys {
+			vs := []string{}
+			if i < len(res) {
+				vs = append(vs, res[i]...)
+			}
+			sort.Strings(vs)
+			op.Values[k] = vs
+			want := map[string]bool{}
+			for _, s := range sel {
+				if v, ok := s.tags[k]; ok {
+					want[v] = true
+				}
+			}
+			var wv []string
+			for v := range want {
+				wv = append(wv, v)
+			}
+			sort.Strings(wv)
+			if strings.Join(vs, "\x03") != strings.Join(wv, "\x03") {
+				rn.fail("listing-cond-values", opi, fmt.Sprintf("tag values of %q with condition listed %q, written and satisfying %q", k, vs, wv))
+			}
+			vc, err := rn.e.idx.SearchTagValuesCardinality([]byte(mst), []byte(k))
+			must(err)
+			op.VCard[k] = vc
+			if int(vc) != len(allVals[k]) {
+				rn.fail("listing-vcard", opi, fmt.Sprintf("tag value cardinality of %q is %d, %d distinct values written", k, vc, len(allVals[k])))
+			}
+		}
+	}
+	sort.Slice(op.Series, func(i, j int) bool { return canon(op.Series[i].Mst, op.Series[i].Tags) < canon(op.Series[j].Mst, op.Series[j].Tags) })
+	rn.c.Ops = append(rn.c.Ops, op)
 }
 
 func (rn *runner) doReopen() {
@@ -657,7 +860,7 @@ func newRunner(r *gen.Rand, dir string, i int, kind string) *runner {
 	seq := uint64(1000)
 	e := &env{dir: dir, clock: 1, seq: &seq}
 	e.open()
-	return &runner{e: e, c: &Case{I: i, Kind: kind, Oracle: []Fail{}, Atoms: []AtomTab{}}, g: &genState{r: r, byKey: map[string]*ser{}}, pats: map[string]bool{}}
+	return &runner{e: e, c: &Case{I: i, Kind: kind, Perl: perlMode, Oracle: []Fail{}, Atoms: []AtomTab{}}, g: &genState{r: r, byKey: map[string]*ser{}}, pats: map[string]bool{}}
 }
 
 func genCase(r *gen.Rand, dir string, i int) *Case {
@@ -673,7 +876,7 @@ func genCase(r *gen.Rand, dir string, i int) *Case {
 	nops := r.Range(8, 30)
 	dirty := false // inserts since the last flush: a search sees items only after a flush (mergeset contract)
 	for k := 0; k < nops; k++ {
-		c := r.Intn(20)
+		c := r.Intn(21)
 		switch {
 		case c < 9 || len(g.series) == 0:
 			mst := gen.Pick(r, ms)
@@ -705,7 +908,7 @@ func genCase(r *gen.Rand, dir string, i int) *Case {
 		case c < 13:
 			rn.doReopen()
 			dirty = false
-		case c < 19:
+		case c < 19 || c == 20:
 			if dirty {
 				rn.e.b.Flush()
 				dirty = false
@@ -723,7 +926,22 @@ func genCase(r *gen.Rand, dir string, i int) *Case {
 				dirty = false
 				rn.c.Ops = append(rn.c.Ops, Op{Op: "flush"})
 			}
-			rn.doList(gen.Pick(r, ms))
+			if r.Bool() {
+				rn.doList(gen.Pick(r, ms))
+			} else {
+				// listings with a condition / cardinalities; IN is not implemented on that path
+				mst := gen.Pick(r, ms)
+				var x *Expr
+				if !r.Chance(1, 5) {
+					for try := 0; try < 8; try++ {
+						if x = g.genExpr(mst, r.Intn(3)); !hasIn(x) {
+							break
+						}
+						x = nil
+					}
+				}
+				rn.doCondList(mst, x)
+			}
 		}
 	}
 	rn.finishAtoms()
@@ -824,6 +1042,8 @@ func replayCase(in *Case, dir string, i int) *Case {
 			rn.doQuery(op.Mst, op.Expr)
 		case "list":
 			rn.doList(op.Mst)
+		case "clist":
+			rn.doCondList(op.Mst, op.Expr)
 		}
 	}
 	rn.finishAtoms()
@@ -848,6 +1068,10 @@ func main() {
 		args = args[1:]
 	}
 	idx := 0
+	if os.Getenv("C10_PERL") != "" {
+		perlMode = true
+		config.GetStoreConfig().EnablePerlRegrep = true
+	}
 	if os.Getenv("C10_NO_MATRIX") == "" {
 		// the pattern x value matrix of the regular-expression translation (deterministic, once per run)
 		dir := filepath.Join(base, "matrix")
@@ -873,7 +1097,7 @@ func main() {
 		}
 	}
 	r := gen.FromEnv(10)
-	if n > 0 {
+	if n > 0 && !perlMode {
 		nsweep := 2
 		if gen.Tier() != "quick" {
 			nsweep = 12
